@@ -90,13 +90,16 @@ func NamedSubtype(n string, v interface{}, st string) Arg {
 		return Named(n, v)
 	}
 
+	// Lowercase once, here: the returned Arg may be applied by several
+	// goroutines at the same time and must not write to captured variables.
+	n = strings.ToLower(n)
+
 	return func(a *argBuilder) error {
 		rv := reflect.ValueOf(v)
 		if !rv.IsValid() {
 			return nil
 		}
 
-		n = strings.ToLower(n)
 		if a.namedSub[n] == nil {
 			a.namedSub[n] = map[string]reflect.Value{}
 		}
